@@ -725,13 +725,17 @@ package parser
 //@ func parser.(*parser).projectOperator
 //@   use perr exprwf exprok pwf yield
 //@   hide expr
-//@   trusted mutates a column after appending it to op.Cols (col.Assign, col.X): a store to an embedded node is outside the verified subset
 //@   requires p != nil && pOK(p.pos, len(p.tokens)) && toksIn(p.source, p.tokens) && tokIn(p.source, pipe) && tokIn(p.source, keyword)
 //@   ensures pOK(p.pos, len(p.tokens)) && old(cur(p.pos, len(p.tokens))) <= cur(p.pos, len(p.tokens))
 //@   ensures @notfound: !nf(result1)
 //@   ensures @wf: result1 == nil ==> pipeOpWF(p.source, result0) && nodeOK(result0)
 //@   ensures @count: result1 == nil ==> within(cur(p.pos, len(p.tokens)) - old(cur(p.pos, len(p.tokens))) + 2, ntok(result0), slack(result0))
 //@   assigns p.pos
+//@ loop 1
+//@   invariant within(cur(p.pos, len(p.tokens)) - old(cur(p.pos, len(p.tokens))), ntokL(op.Cols, len(op.Cols)) + len(op.Cols), slackL(op.Cols, len(op.Cols)))
+//@   invariant pOK(p.pos, len(p.tokens)) && old(cur(p.pos, len(p.tokens))) <= cur(p.pos, len(p.tokens))
+//@   invariant projColsWF(op.Cols, len(op.Cols)) && nodeOKList(op.Cols, len(op.Cols))
+//@   decreases len(p.tokens) + 1 - p.pos
 
 //@ func parser.(*parser).joinOperator
 //@   tablekeys joinTypes inner innerunique leftouter
